@@ -37,8 +37,9 @@ def entries (O : Oracles) (noProxy : List Nat) : List Entry :=
 
 def PortOK (eport rport : List Nat) : Prop := eport = [] ∨ eport = rport
 
-/-- The host as it is compared: lower-cased, white space trimmed. -/
-def canonHost (r : Req) : List Nat := toLower (trimSpace r.host)
+/-- The host as it is compared: white space trimmed, lower-cased, and without the trailing dot of a
+fully qualified spelling ("example.com." is the name "example.com"). -/
+def canonHost (r : Req) : List Nat := trimSuffixDot (toLower (trimSpace r.host))
 
 /-- "entry `e` matches request `r`". -/
 def EntryMatches (e : Entry) (r : Req) : Prop :=
@@ -189,7 +190,7 @@ theorem useProxy_false_iff_bypass (O : Oracles) (cgi : Bool) (hp sp : Option (Li
   unfold useProxy
   unfold Bypass
   unfold canonHost at hw ⊢
-  by_cases hl : toLower (trimSpace r.host) = localhost
+  by_cases hl : trimSuffixDot (toLower (trimSpace r.host)) = localhost
   · simp [hl]
   · simp only [hl, if_false, false_or]
     rw [← hw]
@@ -371,29 +372,45 @@ subdomains".  (`idnaASCII` is the identity on ASCII input.) -/
 theorem piece_domain (O : Oracles) (v h port : List Nat)
     (h0 : toLower (trimSpace v) ≠ []) (h1 : toLower (trimSpace v) ≠ star)
     (hc : O.parseCIDR (toLower (trimSpace v)) = none)
-    (hhp : HostPortOf O (toLower (trimSpace v)) h port) (hip : O.parseIP h = none) :
+    (hhp : HostPortOf O (toLower (trimSpace v)) h port) (hip : O.parseIP h = none)
+    (hd0 : trimSuffixDot h ≠ []) :
     stepEntry (pieceStep O v) = some
-      (if hasPrefix h starDot then .domain (idnaASCII O (h.drop 1)) true port
-       else if h.head? = some 46 then .domain (idnaASCII O h) true port
-       else .domain (idnaASCII O (46 :: h)) false port) := by
+      (if hasPrefix (trimSuffixDot h) starDot then .domain (idnaASCII O ((trimSuffixDot h).drop 1)) true port
+       else if (trimSuffixDot h).head? = some 46 then .domain (idnaASCII O (trimSuffixDot h)) true port
+       else .domain (idnaASCII O (46 :: trimSuffixDot h)) false port) := by
   have hne : h ≠ [] := by
     rcases hhp with ⟨_, rfl, _⟩ | ⟨_, hne, _⟩
     · exact h0
     · exact hne
   have hstep : pieceStep O v =
-      (let phost1 := if hasPrefix h starDot then h.drop 1 else h
+      (let phost1 := if hasPrefix (trimSuffixDot h) starDot then (trimSuffixDot h).drop 1 else trimSuffixDot h
        let matchHost := phost1.head? != some 46
        let phost2 := if matchHost then 46 :: phost1 else phost1
        Step.addDomain (idnaASCII O phost2) port matchHost) := by
     rcases hhp with ⟨hs, rfl, rfl⟩ | ⟨hs, _, hb⟩
-    · simp [pieceStep, h0, h1, hc, hs, hip]
-    · simp [pieceStep, h1, hc, hs, hne, hb, hip, h0]
+    · simp [pieceStep, h0, h1, hc, hs, hip, hd0]
+    · simp [pieceStep, h1, hc, hs, hne, hb, hip, h0, hd0]
   rw [hstep]
-  by_cases hsd : hasPrefix h starDot = true
+  generalize trimSuffixDot h = d
+  by_cases hsd : hasPrefix d starDot = true
   · -- "*.d": after dropping '*' the string starts with '.'
-    obtain ⟨t, rfl⟩ := hasPrefix_starDot h hsd
+    obtain ⟨t, rfl⟩ := hasPrefix_starDot d hsd
     simp [hsd, stepEntry]
-  · by_cases hd : h.head? = some 46 <;> simp [hsd, hd, stepEntry]
+  · by_cases hd : d.head? = some 46 <;> simp [hsd, hd, stepEntry]
+
+/-- A value that is only a dot (after the port is removed) is ignored. -/
+theorem piece_dot_ignored (O : Oracles) (v h port : List Nat)
+    (h0 : toLower (trimSpace v) ≠ []) (h1 : toLower (trimSpace v) ≠ star)
+    (hc : O.parseCIDR (toLower (trimSpace v)) = none)
+    (hhp : HostPortOf O (toLower (trimSpace v)) h port) (hip : O.parseIP h = none)
+    (hd0 : trimSuffixDot h = []) : pieceStep O v = .skip := by
+  have hne : h ≠ [] := by
+    rcases hhp with ⟨_, rfl, _⟩ | ⟨_, hne, _⟩
+    · exact h0
+    · exact hne
+  rcases hhp with ⟨hs, rfl, rfl⟩ | ⟨hs, _, hb⟩
+  · simp [pieceStep, h0, h1, hc, hs, hip, hd0]
+  · simp [pieceStep, h1, hc, hs, hne, hb, hip, h0, hd0]
 
 theorem idnaASCII_ascii (O : Oracles) (v : List Nat) (h : isASCII v = true) : idnaASCII O v = v := by
   simp [idnaASCII, h]
@@ -437,6 +454,14 @@ example : ¬ Bypass noOracles [] (mkReq [97, 93, 98]) := by
 example : proxyForURL (init noOracles false (some proxyURL) none [42]) (mkReq [97, 93, 98]) = .noProxy := by decide
 /-- Regression for the repaired defect `localhost-case-sensitive`: " LocalHost" is localhost. -/
 example : proxyForURL (init noOracles false (some proxyURL) none []) (mkReq [76, 111, 99, 97, 108, 72, 111, 115, 116]) = .noProxy := by decide
+/-- Regression for the repaired defect `noproxy-trailing-dot`: rooted spellings on either side.
+NO_PROXY="foo.com" vs host "foo.com." and "x.foo.com."; NO_PROXY="foo.com." vs host "foo.com";
+"localhost." is localhost; "xfoo.com." is still proxied. -/
+example : proxyForURL (init noOracles false (some proxyURL) none fooCom) (mkReq (fooCom ++ [46])) = .noProxy := by decide
+example : proxyForURL (init noOracles false (some proxyURL) none fooCom) (mkReq (xFooCom ++ [46])) = .noProxy := by decide
+example : proxyForURL (init noOracles false (some proxyURL) none (fooCom ++ [46])) (mkReq fooCom) = .noProxy := by decide
+example : proxyForURL (init noOracles false (some proxyURL) none []) (mkReq (localhost ++ [46])) = .noProxy := by decide
+example : proxyForURL (init noOracles false (some proxyURL) none fooCom) (mkReq (xfooCom ++ [46])) = .proxy proxyURL := by decide
 /-- "x,*,y": everything bypasses; CGI refuses http. -/
 example : proxyForURL (init noOracles false (some proxyURL) none [120, 44, 42, 44, 121]) (mkReq fooCom) = .noProxy := by decide
 example : proxyForURL (init noOracles true (some proxyURL) none []) (mkReq fooCom) = .errCGI := by decide
